@@ -75,6 +75,12 @@ func vSameKVs(a, b []vKV) bool {
 	return true
 }
 
+// vCK identifies a registered context key: its printed name and whether it is the Stringer or the plain string.
+type vCK struct {
+	name string
+	str  bool
+}
+
 func VH_C07() {
 	vProduction()
 	flags = LstdFlags &^ (Lcaller | LattrsR)
@@ -131,18 +137,30 @@ func VH_C07() {
 	// context keys
 	var ctx context.Context = context.Background()
 	var fromCtx []vKV
+	var ckRegs []vCK
+	ckVals := map[vCK]int{}
 	nilCtx := false
 	for j := 0; j < vParam("ctxkeys", 1); j++ {
 		name := keys[vChoose(3)]
 		var key any = name
-		if vBool() {
+		isStr := vBool()
+		if isStr {
 			key = vCtxKey{name}
 		}
 		lg.SetContextKeys(key)
+		ck := vCK{name, isStr}
+		ckRegs = append(ckRegs, ck)
 		if vBool() {
 			v := next()
 			ctx = context.WithValue(ctx, key, v)
-			fromCtx = append(fromCtx, vKV{name, v})
+			ckVals[ck] = v
+		}
+	}
+	// every registered key, in registration order, contributes the value the context holds for it
+	// at the time of the call (a key registered twice contributes twice)
+	for _, ck := range ckRegs {
+		if v, ok := ckVals[ck]; ok {
+			fromCtx = append(fromCtx, vKV{ck.name, v})
 		}
 	}
 	if len(fromCtx) == 0 && vParam("ctxkeys", 1) > 0 && vBool() {
